@@ -54,6 +54,17 @@ fn main() {
             let mk = maker(&prim).expect("unknown primitive");
             dfs(&new_line, mk, depth, &[], &mut out, &mut stats);
         }
+        Some("beam") => {
+            // beam <depth0> <width> <rounds> <depth_r> new ...
+            let depth0: usize = args[2].parse().expect("depth0");
+            let width: usize = args[3].parse().expect("width");
+            let rounds: usize = args[4].parse().expect("rounds");
+            let depth_r: usize = args[5].parse().expect("depth_r");
+            let new_line = args[6..].join(" ");
+            let prim = args[7].clone();
+            let mk = maker(&prim).expect("unknown primitive");
+            beam(&new_line, mk, depth0, width, rounds, depth_r, &mut out, &mut stats);
+        }
         Some("dfsfrom") => {
             // drive dfsfrom <depth>   with `new ...` and the prefix ops on stdin
             let depth: usize = args[2].parse().expect("depth");
